@@ -155,8 +155,9 @@ Fixpoint prop_run (U : list Z) (done : list ev) (xs : list ev) (os : list obs) :
    For one client order id [c] of instrument [i], walking the delivered events and the observed
    order maps: an episode starts when the id becomes tracked and ends when it is observed
    untracked or a new open request for it is recorded.  Within an episode
-     - once an "open" report with something left and exchange time T has been delivered, the id
-       (while tracked) holds open data with an exchange time >= T   ([need]);
+     - an "open" report with a non-zero remaining quantity (something left, or OVER-FILLED:
+       filled > quantity) leaves the id tracked, and once such a report with exchange time T has
+       been delivered the id (while tracked) holds open data with an exchange time >= T ([need]);
      - the exchange time of the held open data (inside Open or CancelInFlight(Some)) never
        decreases and the data is never dropped                       ([hi]).
    In particular a failed cancel restores an Open state carrying at least the greatest
@@ -187,7 +188,12 @@ Definition resets (i c : Z) (x : ev) : bool :=
 Definition ord_track (i c : Z) (st : option Z * option Z) (x : ev) (cur : option order)
   : bool * (option Z * option Z) :=
   match cur with
-  | None => (true, (None, None))
+  | None =>
+      (* untracked: fine unless this very event delivered an open report with a non-zero
+         remaining quantity for the id (such a report -- over-filled ones included -- always
+         leaves the id tracked) *)
+      (resets i c x || match open_deliveries (ord_inputs i c [x]) with [] => true | _ => false end,
+       (None, None))
   | Some _ =>
       if resets i c x then (true, (None, ht cur))
       else
